@@ -222,19 +222,25 @@ def fingerprint(root, scratch_values=None):
                 _walk("/" + k, root.__dict__[k], out, seen, scratch_values)
     else:
         _walk("", root, out, seen, scratch_values)
-    for k, v in module_roots().items():
+    for k, v in module_roots_cached().items():
         _walk("/@module/" + k, v, out, seen, scratch_values)
     return out
 
 
-def fast_sig(root):
-    """Cheap identity-based signature of the same state: per container its id, its keys and the ids
-    of its non-container values.  Equal signatures => equal fingerprints as far as immutable leaves
-    (int, str, bytes, None, tuples of those) go; in-place mutation of a numpy/pandas leaf is NOT seen
-    by the signature (the tracer therefore also takes the full fingerprint every FULL_EVERY lines)."""
-    acc = []
+_MR = []
+
+
+def module_roots_cached():
+    if not _MR:
+        _MR.append(module_roots())
+    return _MR[0]
+
+
+def containers(root):
+    """every dict / list / tuple reachable from root by the fingerprint's traversal rules (+ module memo tables)"""
+    out = []
     seen = set()
-    mr = module_roots()
+    mr = module_roots_cached()
     stack = [root, mr["seps"], mr["json_codec"]]
     while stack:
         v = stack.pop()
@@ -244,34 +250,34 @@ def fast_sig(root):
         elif tn in ("ParquetFile", "SchemaHelper"):
             v = v.__dict__
         if isinstance(v, dict):
-            i = id(v)
-            if i in seen:
-                acc.append(-i)
+            if id(v) in seen:
                 continue
-            seen.add(i)
-            acc.append(i)
-            acc.append(len(v))
-            for k, x in list(v.items()):
-                acc.append(k if isinstance(k, (int, str)) else repr(k))
-                if isinstance(x, (dict, list, tuple)) or type(x).__name__ in ("ThriftObject", "SchemaHelper"):
-                    stack.append(x)
-                else:
-                    acc.append(id(x))
+            seen.add(id(v))
+            out.append(v)
+            stack.extend(v.values())
         elif isinstance(v, (list, tuple)):
-            i = id(v)
-            if i in seen:
-                acc.append(-i)
+            if id(v) in seen:
                 continue
-            seen.add(i)
-            acc.append(i)
-            acc.append(len(v))
-            for x in v:
-                if isinstance(x, (dict, list, tuple)) or type(x).__name__ in ("ThriftObject", "SchemaHelper"):
-                    stack.append(x)
-                else:
-                    acc.append(id(x))
+            seen.add(id(v))
+            out.append(v)
+            stack.extend(v)
+    return out
+
+
+def fast_sig(conts):
+    """Cheap identity-based signature of the state held by the containers found at the last full walk:
+    per container its keys and the ids of its values (C-speed tuples).  A container that becomes
+    reachable later is reachable only through a change of one of these, which moves the signature.
+    Equal signatures => equal fingerprints as far as immutable leaves (int, str, bytes, None) go;
+    in-place mutation of a numpy/pandas leaf is NOT seen by the signature (the tracer therefore also
+    takes the full fingerprint every FULL_EVERY lines)."""
+    acc = []
+    for c in conts:
+        if isinstance(c, dict):
+            acc.append(tuple(c))
+            acc.append(tuple(map(id, c.values())))
         else:
-            acc.append(id(v))
+            acc.append(tuple(map(id, c)))
     return hash(tuple(acc))
 
 
@@ -370,11 +376,14 @@ def trace_footprint(pf, op, shared=None, root=None, full_every=FULL_EVERY):
     changes = [("start", fp0)]
     n = [0]
     scr_over = [0]
-    last_sig = [fast_sig(target)]
+    conts = [containers(target)]
+    last_sig = [fast_sig(conts[0])]
 
     def full(tag):
         sc = {}
         fp = fingerprint(target, sc)
+        conts[0] = containers(target)
+        last_sig[0] = fast_sig(conts[0])
         if fp != changes[-1][1]:
             changes.append((tag, fp))
         if sc != last_scr[0]:
@@ -385,9 +394,8 @@ def trace_footprint(pf, op, shared=None, root=None, full_every=FULL_EVERY):
 
     def on_line(frame):
         n[0] += 1
-        sg = fast_sig(target)
+        sg = fast_sig(conts[0])
         if sg != last_sig[0] or n[0] % full_every == 0:
-            last_sig[0] = sg
             full("%s:%d@%d" % (os.path.basename(frame.f_code.co_filename), frame.f_lineno, n[0]))
     tr = make_tracer(prefix, on_line)
     sys.settrace(tr)
@@ -490,13 +498,15 @@ def forced_run(pf, ops, plan, shared=None, timeout=60.0, root=None):
     res = [None] * n
     target = pf if root is None else root
     need_w = any(len(e) > 2 and e[2] == "writes" for e in plan)
-    state = {"sig": fast_sig(target) if need_w else None, "fp": fingerprint(target) if need_w else None}
+    state = {"conts": containers(target) if need_w else None, "fp": fingerprint(target) if need_w else None}
+    state["sig"] = fast_sig(state["conts"]) if need_w else None
 
     def wrote():
-        sg = fast_sig(target)
+        sg = fast_sig(state["conts"])
         if sg == state["sig"]:
             return False
-        state["sig"] = sg
+        state["conts"] = containers(target)
+        state["sig"] = fast_sig(state["conts"])
         fp = fingerprint(target)
         if fp == state["fp"]:
             return False
@@ -734,3 +744,63 @@ def tree_forced(tree, name, k):
     for t in ts:
         t.join(40)
     return res[1]
+
+
+def storm_run(pf, op_a, op_b, shared=None, every=1, phase=0, timeout=120.0, max_calls=100000):
+    """Two real threads: thread 1 runs op_b and is preempted at every `every`-th line event of
+    fastparquet code; at each preemption thread 0 runs op_a once, to completion (a thread issuing the
+    same operation again and again).  Deterministic.  Returns (distinct raw results of op_a as a list,
+    raw result of op_b, number of op_a calls, deadlocked?)."""
+    prefix = pkg_prefix()
+    sem_a = threading.Semaphore(0)
+    sem_b = threading.Semaphore(0)
+    stop = [False]
+    a_results = []
+    a_seen = set()
+    res_b = [None]
+    calls = [0]
+    dead = [False]
+    n = [0]
+
+    def body_a():
+        while True:
+            if not sem_a.acquire(timeout=timeout):
+                dead[0] = True
+                return
+            if stop[0]:
+                return
+            r = run_op_safe(pf, op_a, shared)
+            calls[0] += 1
+            try:
+                c = canon(r)
+            except BaseException as e:      # noqa
+                c = ["CANON-EXC", type(e).__name__, str(e)[:80]]
+            k = repr(c)
+            if k not in a_seen:
+                a_seen.add(k)
+                a_results.append(c)
+            sem_b.release()
+
+    def on_line(frame):
+        n[0] += 1
+        if (n[0] + phase) % every or calls[0] >= max_calls or dead[0]:
+            return
+        sem_a.release()
+        if not sem_b.acquire(timeout=timeout):
+            dead[0] = True
+
+    def body_b():
+        sys.settrace(make_tracer(prefix, on_line))
+        try:
+            res_b[0] = run_op_safe(pf, op_b, shared)
+        finally:
+            sys.settrace(None)
+            stop[0] = True
+            sem_a.release()
+    ta = threading.Thread(target=body_a, daemon=True)
+    tb = threading.Thread(target=body_b, daemon=True)
+    ta.start()
+    tb.start()
+    tb.join(timeout * 3)
+    ta.join(timeout)
+    return a_results, res_b[0], calls[0], dead[0] or ta.is_alive() or tb.is_alive()
